@@ -104,6 +104,7 @@ T_OpBegin == /\ IsEvent("op_begin")
                 /\ G("ob.cur", cur = c /\ ~yl)
                 /\ G("ob.n", cli[c].stage = "idle" /\ cli[c].n + 1 = E.n)
                 /\ G("ob.handle", o.h = "none" \/ o.h \in DOMAIN hnd)
+                /\ (o.op = "claim" => G("ob.claim", hnd[o.h].owner = "pool"))
                 /\ RunIssue(c, o)
 
 \* (a liveness query about an actor that FAILED implicates failure visibility, C06, besides C14)
@@ -207,6 +208,8 @@ T_Eff == /\ IsEvent("eff")
             /\ (E.e \in {"ctx_stop", "ctx_restart"} => G("eff.ctx", (E.res = "ok") <=> CtxSubmitOk(a)))
             /\ (E.e \in TimerKinds => G("eff.timer", CurEff(a).s = E.s))
             /\ (E.e \in ViaBroker => (G("eff.nested", cli[a].nest = "done") /\ G("eff.nested.res", cli[a].last.res = E.res)))
+            /\ (E.e \in DOMAIN CtxWeakKind =>
+                   G("eff.ctxweak", (E.res = "ok") <=> (E.s \notin DOMAIN hnd /\ (CtxWeakKind[E.e] # "waddr" \/ CanUpgrade(a, "waddr")))))
             /\ (E.e \in {"call_peer", "send_peer"} =>
                    /\ G("eff.peer", CurEff(a).s = E.s)
                    /\ G("eff.peer.res", IF cli[a].nest = "done" THEN cli[a].last.res = E.res
